@@ -43,6 +43,72 @@ def check(case: dict) -> Verdict:
     return v
 
 
+from hypothesis import strategies as st  # noqa: E402
+
+GARBAGE = ["$none", "soon", "$list"]
+
+
+@st.composite
+def garbage_case(draw):
+    p = dict(PROFILE)
+    p["budget"] = 1.0
+    p["abort"] = 0.0
+    p["handler"] = 0.0
+    p["always_fail"] = True
+    p.pop("multi_call", None)
+    case = draw(gen.retry_case(p))
+    specs = list((case["cfg"].get("strategies") or {}).values()) + ([case["cfg"]["default"]] if case["cfg"].get("default") else [])
+    for spec in specs:
+        vals = list(spec["vals"])
+        vals[draw(st.integers(0, len(vals) - 1))] = draw(st.sampled_from(GARBAGE))
+        spec["vals"] = vals
+        spec["style"] = "ctx"
+    case["entry"] = draw(st.sampled_from(C.CALL_ENTRIES))
+    return case
+
+
+def check_garbage(case: dict) -> Verdict:
+    """A strategy that returns something that is no number at all is the caller's bug and the run may die
+    with the resulting TypeError - but not after a budget token was spent or a `retry` reported for a retry
+    that never happens."""
+    v = Verdict()
+    case = {**case, "cfg": {**case["cfg"]}}
+    env, cvs = C.run(_materialise(case))
+    hit = False
+    for cv in cvs:
+        for a in cv.atts:
+            strats = a.of("strat")
+            if not strats:
+                continue
+            pos, ev = strats[0]
+            raw = ev[8]
+            if isinstance(raw, (int, float)) or type(raw).__name__ in ("Decimal", "Fraction"):
+                continue
+            hit = True
+            after = a.ev[pos + 1 :]
+            if any(e[0] == "budget" and e[1] for e in after):
+                v.fail("C03:garbage-delay:budget-spent", f"strategy returned {raw!r} for attempt {a.n}: a budget token was spent although no retry can follow")
+            if any(e[0] == "metric" and e[1] == "retry" for e in after):
+                v.fail("C03:garbage-delay:retry-reported", f"strategy returned {raw!r} for attempt {a.n}: a `retry` was reported although no retry can follow")
+            if any(e[0] == "sleep" for e in after) or a is not cv.atts[-1]:
+                v.fail("C03:garbage-delay:work-continued", f"strategy returned {raw!r} for attempt {a.n} but the run went on")
+    v.nontrivial = hit
+    v.tag("garbage-delay-reached" if hit else "garbage-delay-not-reached")
+    return v
+
+
+def _materialise(case: dict) -> dict:
+    def fix(vv):
+        return [None if x == "$none" else ([1] if x == "$list" else x) for x in vv]
+
+    cfg = dict(case["cfg"])
+    if cfg.get("default"):
+        cfg["default"] = {**cfg["default"], "vals": fix(cfg["default"]["vals"])}
+    if cfg.get("strategies"):
+        cfg["strategies"] = {k: {**sp, "vals": fix(sp["vals"])} for k, sp in cfg["strategies"].items()}
+    return {**case, "cfg": cfg}
+
+
 PROP = Property(
     id="C03",
     level="exploration",
@@ -56,5 +122,6 @@ PROP = Property(
     assumptions=["model and implementation arithmetic are both exact on the k/64 s grid"],
     streams=[
         Stream("model", check, strategy=C.with_entry(gen.retry_case(PROFILE), C.WIDE_ENTRIES), quick=16000, thorough=400000),
+        Stream("garbage_delay", check_garbage, strategy=garbage_case(), quick=2000, thorough=40000),
     ],
 )
